@@ -53,6 +53,8 @@ type Script struct {
 	Structs   map[string][]string
 	// loop-carried variables that are case-split: SMT constant name -> split variable
 	SplitConsts map[string]string
+	Preamble    string          // quantified facts about the pure symbols this script mentions
+	CalledPure  map[string]bool // pure symbols whose contract is already assumed at a call site
 	QuickStride int
 }
 
@@ -1302,6 +1304,12 @@ func (f *fctx) revealSet() map[string]bool {
 	return r.lemmaReveal
 }
 
+// loopFrame: the contract asks for loop-local heap writes not to be havocked (directive loopframe).
+func (f *fctx) loopFrame() bool {
+	r := f.rootFctx()
+	return r.rootCon != nil && r.rootCon.LoopFrame
+}
+
 func (f *fctx) rootFctx() *fctx {
 	r := f
 	for r.parent != nil {
@@ -1362,7 +1370,7 @@ func (f *fctx) loopHeader(h *ssa.BasicBlock, ord int, preds []*ssa.BasicBlock, c
 				continue
 			}
 		}
-		if strings.HasPrefix(k, "H$") && !existing[k] {
+		if f.loopFrame() && strings.HasPrefix(k, "H$") && !existing[k] {
 			// the loop writes this field only in objects it allocates itself: every object that existed
 			// at loop entry keeps its value, and the values at not-yet-allocated references are
 			// unconstrained in the entry heap anyway, so the entry heap stands for the heap of any iteration
@@ -1372,7 +1380,7 @@ func (f *fctx) loopHeader(h *ssa.BasicBlock, ord int, preds []*ssa.BasicBlock, c
 		if k == "top" {
 			f.assume(T(SBool, "(>= %s %s)", nv.S, old.S))
 		}
-		if strings.HasPrefix(k, "H$") && !existing[k] {
+		if false && strings.HasPrefix(k, "H$") && !existing[k] {
 			// frame: the loop writes this field only in objects it allocates itself, so every object
 			// that existed at loop entry keeps its value
 			topEntry := f.cur.cells["top"]
